@@ -538,7 +538,12 @@ fn failing_opens(rng: &mut Rng, images: &[(Config, Vec<u8>, bool)], out: &mut Ou
                 expect_err = false;
             }
             2 => {
-                let newlen = match rng.below(8) {
+                let newlen = match rng.below(11) {
+                    // cut by whole pages: on small regions such a length is usually again the length of a valid layout
+                    8 | 9 | 10 => {
+                        let pages = (data.len() / ps) as u64;
+                        if pages > 3 { data.len() as u64 - ps as u64 * rng.range(1, pages - 2) } else { ps as u64 }
+                    }
                     0 => rng.range(1, 8),
                     1 => rng.range(9, 319),
                     2 => rng.range(320, ps as u64),
@@ -599,6 +604,9 @@ fn failing_opens(rng: &mut Rng, images: &[(Config, Vec<u8>, bool)], out: &mut Ou
         }
         let be = MonBackend::new(data);
         be.lock().fail = fail;
+        if rng.chance(1, 5) {
+            be.lock().fail_close = true;
+        }
         let res: Result<(), String> = if ro {
             let b = Runner::builder(&cfg);
             let h = be.handle();
@@ -727,6 +735,10 @@ fn drop_orders(rng: &mut Rng, out: &mut Out, budget: usize) {
         if let Some(k) = fail_at {
             let c = be.lock().calls;
             be.lock().fail = if rng.chance(1, 2) { Fail::Once(c + k % 40) } else { Fail::From(c + k % 40) };
+        }
+        // the backend's own close() may report an error: it is still the one close it gets
+        if rng.chance(1, 4) {
+            be.lock().fail_close = true;
         }
         let r = catch(|| match variant {
             0 | 1 | 2 | 7 => {
